@@ -266,3 +266,18 @@ func c17Operand(k int) ast.Node {
 func H_roundOperands(o, l, r int) {
 	c17Check(c17Op(o, c17Operand(l), c17Operand(r), dref("z")))
 }
+
+// H_roundChain: a flat chain of n operands under one binary operator (left-nested, as the parser
+// builds it for a long sum or conjunction) and a chain of n accesses on one reference.
+func H_roundChain(o, n int) {
+	var e ast.Node = dref("p0")
+	for i := 1; i < n; i++ {
+		e = c17Op(o, e, dref("p"), nil)
+	}
+	c17Check(e)
+	var acc []ast.Node
+	for i := 0; i < n; i++ {
+		acc = append(acc, &ast.DataRefKeyNode{Key: "k"})
+	}
+	c17Check(&ast.DataRefNode{Key: "a", Access: acc})
+}
